@@ -221,6 +221,8 @@ func printDirectives(ds []Directive) string {
 	return b.String()
 }
 
+var soyKeywords = map[string]bool{"param": true, "call": true, "if": true, "let": true, "for": true, "foreach": true, "msg": true, "print": true, "switch": true, "case": true, "default": true, "else": true, "elseif": true, "css": true, "log": true, "literal": true, "template": true, "namespace": true, "alias": true, "plural": true, "ifempty": true, "debugger": true, "sp": true, "nil": true, "lb": true, "rb": true, "and": true, "or": true, "not": true, "null": true, "true": true, "false": true}
+
 type printer struct {
 	b    strings.Builder
 	file *File
@@ -338,6 +340,9 @@ func (p *printer) cmd(c *Cmd) {
 		}
 		b.WriteString(tag(inner))
 		for _, pr := range c.Call.Params {
+			if soyKeywords[pr.Key] {
+				pr.Style = 1 // a key spelled like a command name is written in attribute syntax
+			}
 			switch {
 			case pr.IsBlock && pr.Style == 0:
 				b.WriteString("{param " + pr.Key + "}")
